@@ -66,6 +66,9 @@ def plan(case, rseed, force=None):
         c1, c2 = rng.sample(list(nodes), 2)
         base[c2] = base[c1].swapcase()
     kinds, edges, names, derive = {}, {}, {}, {}
+    # a FAMILY of hybrid classes (a quarter of the plans): every struct of the graph is the struct behind an xo.HybridClass, and classes
+    # name several hybrid classes next to each other in their _depends_on (the metaclass resolves each of them to its struct)
+    family = rng.random() < 0.25
     scal = SCALARS[:]
     rng.shuffle(scal)
     ref_targets = set()
@@ -99,7 +102,7 @@ def plan(case, rseed, force=None):
             k = want
         else:
             k = rng.choice(cand)
-            if k == "struct" and rng.random() < 0.3:
+            if k == "struct" and (family or rng.random() < 0.3):
                 k = "hybrid"      # the struct behind an xo.HybridClass: fields through _xofields, dependencies through the class body
         kinds[c] = k
         if k in ("struct", "hybrid"):
@@ -107,6 +110,8 @@ def plan(case, rseed, force=None):
             while pmax < len(D) and exists(D[pmax]) and kinds[D[pmax]] != "duck":
                 pmax += 1
             split = pmax if rng.random() < 0.5 else rng.randint(0, pmax)
+            if family and k == "hybrid" and rng.random() < 0.6:
+                split = 0
             edges[c] = [(t, "field" if x < split else "declared") for x, t in enumerate(D)]
             names[c] = base[c]
         elif k == "array":
@@ -226,7 +231,15 @@ def build(case, pl):
         real = ([f.ftype for f in o._fields] + list(o._depends_on) if k in ("struct", "hybrid") else [o._itemtype] if k == "array"
                 else [o._reftype] if k == "ref" else list(o._reftypes) + list(getattr(o, "_depends_on", [])) if k == "union" else list(o._depends_on) if k == "duck" else [])
         # (a hybrid class is declared with the hybrid classes of its targets; swapping in their structs is the library's job and under test)
-        if len(real) != len(edges[c]) or any(r is not obj[t] and not (k == "hybrid" and r is hyb.get(t)) for r, (t, _) in zip(real, edges[c])):
+        if k == "hybrid":
+            # the harness handed the metaclass exactly the planned list (inbody / late extension above); what the metaclass makes of the
+            # declared part (_depends_on: resolution of hybrid classes to their structs) is code under test - a list it mangles is judged
+            # by the contract on the PLANNED graph (a dependency that is never emitted), not reported as a harness failure
+            nf = len(o._fields)
+            real, planned = real[:nf], edges[c][:nf]
+        else:
+            planned = edges[c]
+        if len(real) != len(planned) or any(r is not obj[t] and not (k == "hybrid" and r is hyb.get(t)) for r, (t, _) in zip(real, planned)):
             raise C.MachineryError(f"harness: class {c} ({k}) was not built with the planned edges {edges[c]}: {real}")
     return obj
 
